@@ -187,7 +187,9 @@ class ExprMixin:
             if fk is not None:
                 self.oblige(st, "safe", f"notnone:{attr}", obj.term != 0, node, exc="AttributeError")
                 return self.fget(st, obj, attr, fk)
-            if self.reg.lookup_method(cls, attr) is None and self.find_method_def(cls, attr) is None and not attr.startswith("__"):
+            ci_ = self.reg.classes.get(cls)
+            if (ci_ is not None and ci_.file is not None and cls not in self.reg.maplike
+                    and self.reg.lookup_method(cls, attr) is None and self.find_method_def(cls, attr) is None and not attr.startswith("__")):
                 # an attribute the class table does not know (e.g. introduced by a change): an object of unknown
                 # class stored in the heap -- it can be passed on and written through, under the usual frame rules
                 self.note_assumption(f"attribute {cls}.{attr} is not declared in the class table: treated as a reference to an object of unknown class")
@@ -222,6 +224,13 @@ class ExprMixin:
         return z3.If(i < 0, i + n, i)
 
     def ev_Subscript(self, e, st):
+        # ty.__metadata__[0]: the refinement object of an Annotated type (pure function of the type)
+        if isinstance(e.value, ast.Attribute) and e.value.attr == "__metadata__" and isinstance(e.slice, ast.Constant) and e.slice.value == 0:
+            c = self.reg.contracts.get("type_metadata0")
+            if c is not None:
+                for tv, s in self.ev(e.value.value, st):
+                    yield from self.apply_contract(c, [tv], {}, s, e)
+                return
         for obj, s in self.ev(e.value, st):
             if isinstance(e.slice, ast.Slice):
                 yield from self.ev_slice(obj, e.slice, s, e)
@@ -768,4 +777,12 @@ class ExprMixin:
 
     # ------------------------------------------------------------------ feasibility
     def feasible(self, st: State) -> bool:
-        return self.solver_quick(st.pc)
+        """False only if the path condition is certainly unsatisfiable.  Uses the quantifier-free facts first
+        (cheap, decides almost every branch); the full context is consulted only with a tiny budget."""
+        s = z3.Solver()
+        s.set("timeout", 250)
+        s.add(*self.qf_pc(st))
+        r = s.check()
+        if r == z3.unsat:
+            return False
+        return True
